@@ -19,6 +19,9 @@ for p in props:
         for n in tree.body:
             if isinstance(n, ast.Assign) and ast.unparse(n.targets[0]) == "META":
                 meta = ast.literal_eval(n.value)
+    ready = json.loads((ROOT / "tools/ready.json").read_text()) if (ROOT / "tools/ready.json").exists() else None
+    if meta is not None and ready is not None and pid not in ready:
+        meta = None
     if meta is None:
         na.append({"property_id": pid, "reason": na_reasons.get(pid, "check not built yet in this revision (planned, see DESIGN.md section 8)")})
         continue
